@@ -185,6 +185,10 @@ def fhex(x):
 
 def qdy(x):
   """finite float (or int / Fraction with power-of-two denominator) -> exact dyadic rational literal"""
+  if isinstance(x, np.floating):
+    x = float(x)               # (float32 / float16 values are exactly representable in binary64)
+  elif isinstance(x, np.integer):
+    x = int(x)
   fr = Fraction(x)
   n, dn = fr.numerator, fr.denominator
   e = dn.bit_length() - 1
